@@ -25,6 +25,7 @@ def negative_stream(res, rnd, tier, seed, prop):
             [("union-call-template", t) for t in mutants.union_call_templates()]
     else:
         muts = [("template", t) for t in mutants.narrowing_templates()] + \
+            [("coverage-template", t) for t in mutants.coverage_templates()] + \
             [("assign-template", t) for t in mutants.assignment_templates()] + \
             [("union-operand-template", t) for t in mutants.union_operand_templates()] + \
             [("union-call-template", t) for t in mutants.union_call_templates()] + mutants.mutants(rnd, base, 2)
